@@ -844,6 +844,9 @@ def check_C12(rep):
                 else: rep.cov["traces_validated_against_impl"] += 1
                 if predicted != built:
                     rep.fail(kind="dfa-size-prediction-differs-from-states-built", pattern=bytes(c["pattern"]).decode("latin1"), predicted=predicted, built=built)
+                # the library's own entry point (dfa_size of regex_term / regex::expr) must give the size the builder needs
+                if r.get("ads") is not None and r["ads"] != f"ok {built}":
+                    rep.fail(kind="regex-analyze_dfa_size-differs-from-states-built", pattern=bytes(c["pattern"]).decode("latin1"), analyze_dfa_size=r["ads"], built=built)
                 if "{" in bytes(c["pattern"]).decode("latin1"):
                     nontriv.add(bytes(c["pattern"]))
                     if len(samples) < 2: samples.append({"pattern": bytes(c["pattern"]).decode("latin1"), "predicted": predicted, "built": built})
@@ -859,8 +862,8 @@ def check_C12(rep):
             if "C" not in d or d["C"] not in run.real: continue
             c = d["C"]; rc = run.real[c]; mc = run.model.get(c)
             rep.cov["evaluations"] += 1
-            if mc is None or rc["gen"] != mc["gen"] or rc["rows"] != mc["rows"]:
-                rep.tie_broken(f"correspondence H1/limits: case {c}: construction outcome under custom limits differs from the model's")
+            if mc is None or rc["gen"] != mc["gen"]:
+                rep.tie_broken(f"correspondence H1/limits: case {c}: construction outcome under custom limits ({rc['gen']}) differs from the model's ({(mc or {}).get('gen')})")
             if "A" in d and d["A"] in run.real:
                 ra = run.real[d["A"]]
                 if rc["gen"] == "ok" and ra["gen"] == "ok" and (rc["states"] != ra["states"] or rc["rows"] != ra["rows"]):
